@@ -40,6 +40,7 @@ _sketch_array((static_cast<uint64_t>(num_hashes) * num_buckets < (1ULL << 30)) ?
 _seed(seed),
 _total_weight(0),
 hash_seeds(_allocator) {
+  if (num_hashes < 1) throw std::invalid_argument("Using fewer than 1 hash function leaves nothing to estimate from.");
   if (num_buckets < 3) throw std::invalid_argument("Using fewer than 3 buckets incurs relative error greater than 1.");
 
   // This check is to ensure later compatibility with a Java implementation whose maximum size can only
